@@ -485,11 +485,13 @@ pub fn general_metadata_n(g: &mut G, n: usize, rep: bool) -> GeneralTransactionM
 }
 pub fn general_metadata(g: &mut G) -> GeneralTransactionMetadata { let (n, rep) = fill(g); general_metadata_n(g, n, rep) }
 pub fn auxiliary_data(g: &mut G) -> AuxiliaryData {
+    // the parts of auxiliary data are plain optional fields: an empty part is written (as an empty map / array) and
+    // comes back as Some(empty), so no normalisation applies and the decoded value must equal the built one
     let (a, b, c, pref) = (g.tri(), g.tri(), g.tri(), g.pick(2));
     let mut x = AuxiliaryData::new();
-    match a { 1 => { let n = g.some_len().min(3); x.set_metadata(&general_metadata_n(g, n, false)); } 2 => { g.empties += 1; x.set_metadata(&GeneralTransactionMetadata::new()); } _ => {} }
-    match b { 1 => { let n = g.some_len().min(3); x.set_native_scripts(&native_scripts_n(g, n, false)); } 2 => { g.empties += 1; x.set_native_scripts(&NativeScripts::new()); } _ => {} }
-    match c { 1 => { let n = g.some_len().min(3); x.set_plutus_scripts(&plutus_scripts_n(g, n, false)); } 2 => { g.empties += 1; x.set_plutus_scripts(&PlutusScripts::new()); } _ => {} }
+    match a { 1 => { let n = g.some_len().min(3); x.set_metadata(&general_metadata_n(g, n, false)); } 2 => { x.set_metadata(&GeneralTransactionMetadata::new()); } _ => {} }
+    match b { 1 => { let n = g.some_len().min(3); x.set_native_scripts(&native_scripts_n(g, n, false)); } 2 => { x.set_native_scripts(&NativeScripts::new()); } _ => {} }
+    match c { 1 => { let n = g.some_len().min(3); x.set_plutus_scripts(&plutus_scripts_n(g, n, false)); } 2 => { x.set_plutus_scripts(&PlutusScripts::new()); } _ => {} }
     if pref == 1 { x.set_prefer_alonzo_format(true); }
     x
 }
